@@ -3,7 +3,8 @@
 cd /verif
 for d in selftest/* seeded/*; do
   id=$(basename $d | cut -c1-3)
-  for f in $d/*.sed $d/patch.diff; do
+  grep -q "\"caught\": false" $d/meta.json 2>/dev/null && continue
+  for f in $d/*.sed $d/patch.diff $d/revert-*.diff; do
     [ -f "$f" ] || continue
     case $(basename $f) in benign*) e=silent;; *) e=fire;; esac
     python3 -m oxv.selftest $id $f --expect $e 2>&1 | tail -1
